@@ -183,6 +183,10 @@ def to_spec(items, prefix=""):
             spec.append([p, "f", SCRIPT, 0o755])
         elif k == "links":
             spec.append([p, "f", it["text"]])
+        elif k == "spec":
+            # extra file-system furniture that is not an addressable object of the site (e.g. things under '.cap')
+            for rel, kind, payload in it["entries"]:
+                spec.append([prefix + rel, kind, payload])
     return spec
 
 
